@@ -97,6 +97,8 @@ def wild_atoms() -> List[tuple]:
         ("b64bad", lambda: "a"),
         ("b64pad", lambda: "ab=c"),
         ("notadate", lambda: "2020-13-45"),
+        ("re_hugerepeat", lambda: "a{99999999999999999999}"),  # a regular expression whose compilation overflows
+        ("re_deepgroups", lambda: "(" * 5000 + ")" * 5000),  # ... or recurses too deep
         ("slashes", lambda: "1/2/3"),
         ("openparen", lambda: "("),
         ("nulchar", lambda: "a\x00b"),
